@@ -706,6 +706,8 @@ func (s *Service) Handshake(peer boson.Address, recipient common.Address, signed
 
 	if signedCheque.CumulativePayout.Cmp(cheque.CumulativePayout) > 0 {
 		traffic := s.getTraffic(recipient)
+		traffic.Lock()
+		defer traffic.Unlock()
 		return s.putSendCheque(context.Background(), &signedCheque.Cheque, recipient, traffic)
 	}
 
